@@ -33,6 +33,11 @@ func Tar(ctx context.Context, w io.Writer, fs FilesystemReader) error {
 	return err
 }
 
+// encodable returns true for the node types that can be stored in an archive
+func encodable(f *File) bool {
+	return f.IsDir() || f.IsRegular() || f.IsSymlink() || f.IsDevice()
+}
+
 func tar(ctx context.Context, enc FormatEncoder, fs *fsBufReader, f *File) (n int64, err error) {
 	// See if we're meant to stop
 	select {
@@ -51,7 +56,7 @@ func tar(ctx context.Context, enc FormatEncoder, fs *fsBufReader, f *File) (n in
 	}
 
 	// Skip (and warn about) things we can't encode properly
-	if !(f.IsDir() || f.IsRegular() || f.IsSymlink() || f.IsDevice()) {
+	if !encodable(f) {
 		fmt.Fprintf(os.Stderr, "skipping '%s' : unsupported node type\n", f.Name)
 		return 0, nil
 	}
@@ -108,6 +113,13 @@ func tar(ctx context.Context, enc FormatEncoder, fs *fsBufReader, f *File) (n in
 			if !(path.Dir(f.Path) == dir) {
 				fs.Buffer(f)
 				break
+			}
+
+			// Skip (and warn about) things we can't encode properly before a filename
+			// element is written for them, a filename has to be followed by an entry
+			if !encodable(f) {
+				fmt.Fprintf(os.Stderr, "skipping '%s' : unsupported node type\n", f.Name)
+				continue
 			}
 
 			start := n
